@@ -52,6 +52,10 @@ Theorem strip_filters : forall s, sf QStrip (sstr s) [] = Ok (sstr (trim_start (
 Proof. exact (SeqProofs.strip_filters O). Qed.
 Theorem strip_newlines_spec : forall s, sf QStripNewlines (sstr s) [] = Ok (sstr (filter (fun c => negb (N.eqb c 10 || N.eqb c 13)) s)).
 Proof. exact (SeqProofs.strip_newlines_spec O). Qed.
+Theorem newline_to_br_spec : forall s,
+  sf QNewlineToBr (sstr s) [] = Ok (sstr (replace_str [10%N] k_br s)) /\
+  replace_str [10%N] k_br s = join_str k_br (split_str [10%N] s).
+Proof. exact (SeqProofs.newline_to_br_spec O). Qed.
 Theorem case_filters_map_the_oracle : forall s,
   sf QUpcase (sstr s) [] = Ok (sstr (flat_map (upper_c O) s)) /\ sf QDowncase (sstr s) [] = Ok (sstr (flat_map (lower_c O) s)) /\
   sf QCapitalize (sstr s) [] = Ok (sstr (match s with [] => [] | c :: t => upper_c O c ++ t end)).
@@ -118,3 +122,4 @@ Print Assumptions truncate_spec.
 Print Assumptions truncate_bound.
 Print Assumptions truncatewords_spec.
 Print Assumptions chain_is_fold.
+Print Assumptions newline_to_br_spec.
